@@ -85,9 +85,26 @@ def varCommand (vi : VarIn) (pairFn : List Nat → List Nat → List Region → 
 def modelPair (refRow q : List Nat) (regions : List Region) (inter : List Nat) : List Variant :=
   getVariantsPair (refRow.map (enc false)) (q.map (enc false)) regions inter
 
+/-- keep only the records a property speaks about: focus=nucaa drops ins:/del:, focus=indel keeps only them -/
+def focusOutput (focus : String) (agg : Bool) (out : String) : String :=
+  if focus == "" || focus == "all" || out.startsWith "!" then out else
+  let keep (m : String) : Bool :=
+    let indel := m.startsWith "ins:" || m.startsWith "del:"
+    if focus == "indel" then indel else !indel
+  match out.splitOn "\n" with
+  | h :: rest =>
+    let body := rest.filter (!·.isEmpty)
+    let body' := if agg then body.filter keep else body.map fun l =>
+      match l.splitOn "," with
+      | n :: ms => n ++ "," ++ joinWith "|" ((splitList (joinWith "," ms) "|").filter keep)
+      | [] => l
+    joinWith "\n" (h :: body') ++ "\n"
+  | [] => out
+
 def runVar (c : Case) : Verdict :=
   let vi := varIn c
-  functional (c.get "go") (varCommand vi modelPair) (varCommand vi specVariants)
+  let f := focusOutput (c.get "focus") vi.agg
+  functional (f (c.get "go")) (f (varCommand vi modelPair)) (f (varCommand vi specVariants))
 
 /-! ### relations between two real runs (metamorphic properties) -/
 
